@@ -104,14 +104,65 @@ theorem lookupR_add_fld (S : StrFns) (b : Bool) (m : Mapper) (f : String) :
       · rw [if_neg (fun e => hk ((addKey_eq_fld S b m k v f).mp e)), if_neg hk]
         rfl
 
+theorem lookupR_map_set (k k' : MKey) (v : MV) :
+    ∀ acc : MDict, lookupR k (acc.map (fun p => if p.1 = k' then (k', v) else p)) =
+      if k' = k then (if acc.any (fun p => decide (p.1 = k')) then some v else none) else lookupR k acc
+  | [] => by simp [lookupR]
+  | (a, w) :: r => by
+    have ih := lookupR_map_set k k' v r
+    simp only [List.map_cons, List.any_cons]
+    by_cases h1 : a = k'
+    · subst h1
+      simp only [if_true, lookupR_cons, ih, decide_true, Bool.true_or]
+      by_cases h2 : a = k
+      · subst h2
+        cases hany : r.any (fun p => decide (p.1 = a)) <;> simp
+      · simp only [if_neg h2]
+    · simp only [if_neg h1, lookupR_cons, ih, decide_eq_false h1, Bool.false_or]
+      by_cases h2 : k' = k
+      · subst h2
+        cases hany : r.any (fun p => decide (p.1 = k')) <;> simp [h1]
+      · simp only [if_neg h2]
+
+theorem lookupR_dset (k k' : MKey) (v : MV) (acc : MDict) :
+    lookupR k (dset acc k' v) = if k' = k then some v else lookupR k acc := by
+  unfold dset
+  by_cases h : acc.any (fun p => decide (p.1 = k')) = true
+  · rw [if_pos h, lookupR_map_set, h]
+    simp
+  · rw [if_neg h, lookupR_append]
+    simp only [lookupR]
+    by_cases h2 : k' = k
+    · simp [h2]
+    · simp [h2]
+
+theorem lookupR_foldl_dset (k : MKey) :
+    ∀ (l acc : MDict), lookupR k (l.foldl (fun a p => dset a p.1 p.2) acc) =
+      match lookupR k l with | some x => some x | none => lookupR k acc
+  | [], acc => by simp [lookupR]
+  | (k', v) :: r, acc => by
+    simp only [List.foldl_cons, lookupR_foldl_dset k r, lookupR_dset, lookupR_cons]
+    cases lookupR k r with
+    | some x => rfl
+    | none =>
+      by_cases h2 : k' = k
+      · simp [h2]
+      · simp [h2]
+
+/-- rebuilding the dict does not change what a lookup finds -/
+theorem lookupR_norm (k : MKey) (l : MDict) : lookupR k (norm l) = lookupR k l := by
+  unfold norm
+  rw [lookupR_foldl_dset]
+  cases lookupR k l <;> simp [lookupR]
+
 theorem lookupR_foldAdd_fld (S : StrFns) (b : Bool) (f : String) :
     ∀ (L : List Mapper) (d : MDict), lookupR (.fld f) (foldAdd S b L d) =
       (lookupR (.fld f) d).map (fun v => L.foldl (fun cur m => stepKey S m f cur) v)
   | [], d => by simp [foldAdd]
   | m :: L, d => by
-    have h := lookupR_foldAdd_fld S b f L (add S b m d)
+    have h := lookupR_foldAdd_fld S b f L (norm (add S b m d))
     simp only [foldAdd, List.foldl_cons] at h ⊢
-    rw [h, lookupR_add_fld]
+    rw [h, lookupR_norm, lookupR_add_fld]
     cases lookupR (MKey.fld f) d <;> rfl
 
 theorem lookupR_baseFld (S : StrFns) (b : Bool) (f : String) (fl : Fld) :
